@@ -785,6 +785,7 @@ end Asynkit.Gen
         + ", ".join(f"({lean_str(n)}, [" + ", ".join(lean_str(p) for p in ps) + "])" for n, ps in prims) + "]\n"
         "end Asynkit.Gen\n")
     files["Sched.lean"] = gen_sched(src)
+    files.update(__import__("corostate2lean").generate(src))   # C20: coroutine state helpers
     top = body_no_doc(fn4)
     if len(top) != 1 or not isinstance(top[0], ast.If) or not isinstance(top[0].test, ast.Name):
         raise Unsupported("update_counters is no longer `if inserted: ... else: ...`")
